@@ -18,6 +18,7 @@ import (
 	"verif/c01/core"
 	"verif/c01/hcoll"
 	"verif/c01/heither"
+	"verif/c01/helem"
 	"verif/c01/hoption"
 	"verif/c01/hsmall"
 	"verif/c01/hstatet"
@@ -38,7 +39,13 @@ func init() {
 	}
 	harnesses = append(harnesses, hcoll.Harnesses()...)
 	harnesses = append(harnesses, hsmall.Harnesses()...)
+	// the law / definition checks again at the nil-able element types (helem)
+	for i := range harnesses {
+		harnesses[i].Checks = core.Concat(harnesses[i].Checks, helem.For(harnesses[i].Prof.Pkg))
+	}
 }
+
+var elemTags = []string{"ptr", "slice", "map", "func", "iface", "error"}
 
 func batchesPerPkg(tier string) int {
 	if tier == "thorough" {
@@ -87,6 +94,26 @@ func floors(tier string) map[string]int64 {
 			fl["hit."+e] = 1
 		}
 		fl["cases."+h.Prof.Pkg] = 1000
+		// re-run / persistence really exercised: values executed again, kept results read again
+		fl["rerun.runs."+h.Prof.Pkg] = 500
+		fl["rerun.reinspected."+h.Prof.Pkg] = 500
+		// units really applied to nil values, user functions really returned nil, at every element type
+		for _, t := range elemTags {
+			fl["elem.unit-on-nil."+h.Prof.Pkg+"."+t] = 10
+			fl["elem.nil-unit-argument."+h.Prof.Pkg+"."+t] = 10
+			fl["elem.nil-function-result."+h.Prof.Pkg+"."+t] = 10
+		}
+	}
+	// kept results that are non-empty slices and differ between the runs of one program value (the
+	// situation in which a buffer shared between runs is visible)
+	fl["rerun.reinspected-nonempty-slices.statet"] = 500
+	fl["rerun.read-after-later-runs.statet"] = 100 // Iterator results: read only after the later runs
+	for _, p := range []string{"option", "try", "either", "statet"} {
+		fl["elem.unit-on-zero."+p] = 40
+	}
+	fl["rerun.kept-slices-differ-between-runs.statet"] = 100
+	for _, p := range []string{"option", "try", "either", "seq"} {
+		fl["rerun.reinspected-nonempty-slices."+p] = 200
 	}
 	return fl
 }
@@ -98,10 +125,12 @@ func main() {
 		Cases:    casesPerBatch,
 		Run:      run,
 		Floors:   floors,
-		Rule:     "batch b exercises one of the 10 packages (b mod 10). Case i runs the check selected by i alone: one exported combinator of the package (every arity 2..9 of the arity-indexed families through generated call sites, every method of every ApplicativeFunctorK/MonadChainK), or - one slot in five - a random expression program (depth <=4 quick / <=6 thorough, bound variables, <=14*depth nodes) over the combinator palette, interpreted by the library and by the reference. Operands come from w.Rand(i): every constructor (Some/None/zero Option, Success/Failure(err1..4), Right/Left(l1..3), StateT pure / state-changing / always-failing / failing for part of the states, nil/empty/singleton/longer sequences, lists as Seq/cons/lazy, iterators from Seq/Of/List/ReverseSeq/Empty, Eval from Done/Call/TailCall), functions from parametrised total palettes including ones failing / returning empty for part of their domain; failure placement per case: none, exactly one operand, or independent 35 %. Oracle: (a) plain-Go reference (state -> (value, failure index, state) for Option/Try/Either/StateT observed at 1 resp. 4 probe states, the list monad on []int, the strict value for Eval, Go functions on 8 probe arguments for fn1), error identity = pointer identity of the injected sentinels; (b) for Map everywhere, and for the Iterator combinators that share a single-use operand by design, the definition written with the package's own FlatMap and unit on fresh identical operands. Every case is counted; distinct_nontrivial = number of distinct (combinator, tuple of operand shapes) pairs (operand shape = constructor variant + success/failure class, sequence shape; for programs the whole expression).",
+		Rule:     "batch b exercises one of the 10 packages (b mod 10). Case i runs the check selected by i alone: one exported combinator of the package (every arity 2..9 of the arity-indexed families through generated call sites, every method of every ApplicativeFunctorK/MonadChainK), or - one slot in five - a random expression program (depth <=4 quick / <=6 thorough, bound variables, <=14*depth nodes) over the combinator palette, interpreted by the library and by the reference. Operands come from w.Rand(i): every constructor (Some/None/zero Option, Success/Failure(err1..4), Right/Left(l1..3), StateT pure / state-changing / always-failing / failing for part of the states, nil/empty/singleton/longer sequences, lists as Seq/cons/lazy, iterators from Seq/Of/List/ReverseSeq/Empty, Eval from Done/Call/TailCall), functions from parametrised total palettes including ones failing / returning empty for part of their domain; failure placement per case: none, exactly one operand, or independent 35 %. Oracle: (a) plain-Go reference (state -> (value, failure index, state) for Option/Try/Either/StateT observed at 1 resp. 4 probe states, the list monad on []int, the strict value for Eval, Go functions on 8 probe arguments for fn1), error identity = pointer identity of the injected sentinels; (b) for Map everywhere, and for the Iterator combinators that share a single-use operand by design, the definition written with the package's own FlatMap and unit on fresh identical operands. Re-run and persistence (core/rerun.go): every program-valued result is executed several times - a StateT from the probe states 0,1,2,7 and then again from 7,2,1,0; an fn1 reader on its 8 probe arguments twice; an fn0 value three times; an Eval by Get, Run, Get; a lazy List is walked twice; an Iterator-producing call is made twice on identically rebuilt operands - and every combinator of a value monad whose result contains a slice (Traverse*, Sequence*, MapSeqLift, FlatMapTraverse*, the try SeqT functions, everything in seq) is called twice on the very same operands. Each result is snapshotted at once (the first pass is what the reference is compared with), a repeated run must equal the first run from the same input (key <check>/rerun-differs-from-first-run), and all results are kept AS RETURNED (slices, Seq, maps are not copied) and read again after all later runs (key <check>/earlier-result-changed-by-rerun). Element types (helem, core/elem.go): the unit, the three laws, Map (+ its FlatMap definition), Flatten, Ap, Flap, Zip, Replace, Map2, With, Method1, TraverseSeq and Sequence of option/try/either/statet, unit/laws/Map/Flatten/Ap/Map2/Flap of seq/list/iterator and unit/laws/Map/Map2/Flatten of lazy/fn0/fn1 are instantiated again at *int, []int, map[int]int, func(int) int, any (incl. a typed nil pointer in a non-nil interface) and error (check names carry the tag, e.g. option.Map[ptr]); palettes of 4-5 values with nil first, functions are tables over the palette, and every such case runs with the palette rotated through all positions so that nil reaches the unit argument, the function result and the operand value in every visit; a unit that does not return a success carrying exactly its argument is keyed <pkg>.<unit>/unit-not-total. Every case is counted; distinct_nontrivial = number of distinct (combinator, tuple of operand shapes) pairs (operand shape = constructor variant + success/failure class, sequence shape; for programs the whole expression).",
 		Assumptions: []string{
 			"callbacks handed to the library are pure and total; effects order is observed through which failure / which state results, callback invocation order itself is C02",
-			"element types are int (and nested containers / curried functions of int); the combinators are parametric so the instantiation does not matter",
+			"element types are int (and nested containers / curried functions of int) for every combinator and arity; the law / definition checks of the unit-dependent core (unit, laws, Map, Flatten, Ap, Flap, Zip, Replace, Map2, With, Method1, TraverseSeq, Sequence) are repeated at six nil-able element types; the arity-indexed families and the builders are exercised at int only",
+			"nil and empty slices / maps are the same value for the oracle (shown alike); nil vs non-nil is only ever compared through success / failure of the carrier",
+			"a program-valued result (StateT, fn0, fn1, Eval, lazy List) may be executed any number of times and user callbacks are pure, so repeated runs from the same input must agree; Iterators are single-use and are only ever rebuilt, never re-read",
 			"the uninitialised fp.Try[T]{} is not an input; Option[T]{} is",
 			"StateT values are observed at the probe states 0,1,2,7; fn1 readers at 8 probe arguments",
 			"seq/list/iterator Zip/Zip3 are positional zips, not monadic products, and are left to C12",
@@ -109,13 +138,32 @@ func main() {
 		},
 		Finish: func(tier string, m *vrt.Merged, cov map[string]any) {
 			per := map[string]int{}
+			elemSites := map[string]int{}
 			for k, v := range m.Counters {
 				if strings.HasPrefix(k, "hit.") && v > 0 {
 					name := strings.TrimPrefix(k, "hit.")
+					if strings.Contains(name, "[") {
+						elemSites[name[:strings.Index(name, ".")]]++
+						continue
+					}
 					per[name[:strings.Index(name, ".")]]++
 				}
 			}
 			cov["combinators_hit_per_package"] = per
+			cov["element_type_sites_hit_per_package"] = elemSites
+			rerun := map[string]int64{}
+			elem := map[string]int64{}
+			for k, v := range m.Counters {
+				if strings.HasPrefix(k, "rerun.") {
+					rerun[strings.TrimPrefix(k, "rerun.")] = v
+				}
+				if strings.HasPrefix(k, "elem.") {
+					parts := strings.Split(k, ".") // elem.<what>.<pkg>.<tag>
+					elem[parts[1]+"."+parts[len(parts)-1]] += v
+				}
+			}
+			cov["rerun"] = rerun
+			cov["element_types"] = elem
 			cases := map[string]int64{}
 			progs := map[string]int64{}
 			for k, v := range m.Counters {
